@@ -23,6 +23,8 @@ const (
 	kWithdraw
 	kSetGpb
 	kSetRegPrice
+	kBlock   // Policy.blockAccount(src)
+	kUnblock // Policy.unblockAccount(src)
 )
 
 type dataKind int
@@ -83,6 +85,10 @@ func (w *world) target(c *call) (util.Uint160, string, []any) {
 		return w.neoH, "setGasPerBlock", []any{c.amt}
 	case kSetRegPrice:
 		return w.neoH, "setRegisterPrice", []any{c.amt}
+	case kBlock:
+		return w.policyH, "blockAccount", []any{c.src}
+	case kUnblock:
+		return w.policyH, "unblockAccount", []any{c.src}
 	}
 	panic("kind")
 }
@@ -175,14 +181,16 @@ func (w *world) recvOf(dst util.Uint160, d dataKind) string {
 	return "n"
 }
 
-// opLines renders the call (and its nested calls) as model operations. `signed` is the set of
-// accounts with a (Global) witness in the transaction, `caller` the contract making the call
-// (zero = the entry script).
-func (w *world) opLines(c *call, signed map[util.Uint160]bool, caller util.Uint160, out *[]string) {
+// opLines renders the call (and its nested calls) as model operations. `caller` is the contract
+// making the call (zero = the entry script); the witness decisions are the model's.
+func (w *world) opLines(c *call, caller util.Uint160, out *[]string) {
 	if c.via != nil {
 		caller = *c.via
 	}
-	wit := func(h util.Uint160) int { return b01(signed[h] || (caller != util.Uint160{} && h == caller)) }
+	cl := "-"
+	if (caller != util.Uint160{}) {
+		cl = fmt.Sprint(w.aid(caller))
+	}
 	switch c.kind {
 	case kTransfer:
 		tok := "gas"
@@ -198,14 +206,14 @@ func (w *world) opLines(c *call, signed map[util.Uint160]bool, caller util.Uint1
 			}
 			data = fmt.Sprintf("nt %s %d", to, c.till)
 		case dPub:
-			data = fmt.Sprintf("pk %d %d", w.pid(c.dpub), b01(signed[c.dpub.GetScriptHash()] || (caller != util.Uint160{} && c.dpub.GetScriptHash() == caller)))
+			data = fmt.Sprintf("pk %d", w.pid(c.dpub))
 		}
 		recv := w.recvOf(c.dst, c.data)
-		*out = append(*out, fmt.Sprintf("transfer %s %d %d %s %d %s %s", tok, w.aid(c.src), w.aid(c.dst), c.amt, wit(c.src), recv, data))
+		*out = append(*out, fmt.Sprintf("transfer %s %d %d %s %s %s %s", tok, w.aid(c.src), w.aid(c.dst), c.amt, cl, recv, data))
 		if recv == "cb" {
 			// recorded by the model only if the transfer gets as far as the callback; the nested
 			// lines are always present, the model skips them while failing / not in a callback.
-			w.opLines(c.nested, signed, c.dst, out)
+			w.opLines(c.nested, c.dst, out)
 			*out = append(*out, "endcb")
 		}
 	case kVote:
@@ -213,13 +221,13 @@ func (w *world) opLines(c *call, signed map[util.Uint160]bool, caller util.Uint1
 		if c.pub != nil {
 			p = fmt.Sprint(w.pid(c.pub))
 		}
-		*out = append(*out, fmt.Sprintf("vote %d %s %d", w.aid(c.src), p, wit(c.src)))
+		*out = append(*out, fmt.Sprintf("vote %d %s %s", w.aid(c.src), p, cl))
 	case kRegister:
 		*out = append(*out, fmt.Sprintf("register %d", w.pid(c.pub)))
 	case kUnregister:
-		*out = append(*out, fmt.Sprintf("unregister %d %d", w.pid(c.pub), wit(c.pub.GetScriptHash())))
+		*out = append(*out, fmt.Sprintf("unregister %d %s", w.pid(c.pub), cl))
 	case kLock:
-		*out = append(*out, fmt.Sprintf("lock %d %d %d", w.aid(c.src), c.till, wit(c.src)))
+		*out = append(*out, fmt.Sprintf("lock %d %d %s", w.aid(c.src), c.till, cl))
 	case kWithdraw:
 		to := "-"
 		dst := c.src
@@ -227,11 +235,15 @@ func (w *world) opLines(c *call, signed map[util.Uint160]bool, caller util.Uint1
 			to = fmt.Sprint(w.aid(c.dst))
 			dst = c.dst
 		}
-		*out = append(*out, fmt.Sprintf("withdraw %d %s %d %s", w.aid(c.src), to, wit(c.src), w.recvOf(dst, dNull)))
+		*out = append(*out, fmt.Sprintf("withdraw %d %s %s %s", w.aid(c.src), to, cl, w.recvOf(dst, dNull)))
 	case kSetGpb:
-		*out = append(*out, fmt.Sprintf("setgpb %s %d", c.amt, wit(w.committeeHash())))
+		*out = append(*out, fmt.Sprintf("setgpb %s %s", c.amt, cl))
 	case kSetRegPrice:
-		*out = append(*out, fmt.Sprintf("setregprice %s %d", c.amt, wit(w.committeeHash())))
+		*out = append(*out, fmt.Sprintf("setregprice %s %s", c.amt, cl))
+	case kBlock:
+		*out = append(*out, fmt.Sprintf("blockacc %d %s", w.aid(c.src), cl))
+	case kUnblock:
+		*out = append(*out, fmt.Sprintf("unblockacc %d %s", w.aid(c.src), cl))
 	}
 }
 
@@ -284,6 +296,10 @@ func (c *call) label(w *world) string {
 		return "setGasPerBlock"
 	case kSetRegPrice:
 		return "setRegisterPrice"
+	case kBlock:
+		return "blockAccount"
+	case kUnblock:
+		return "unblockAccount"
 	}
 	return "?"
 }
